@@ -196,11 +196,12 @@ Proof.
       repeat split; try apply K; try lia. intros y [].
     - repeat split; try (apply FR; reflexivity); try lia. intros x []. }
   set (sm := {| st_pay := w_pay m; st_mid := w_mid m; st_src := i; st_topic := topic_of_wire (w_wtopic m) |}) in *.
+  set (tp := heard_topic Repaired (sc_mode (cfg s0)) (topic_of_wire (w_wtopic m))) in *.
   destruct eph.
   - (* ephemeral source: the synchronized sources are untouched *)
     assert (Hne : sc_eph (cfg s0) <> 0).
     { symmetry in Heph. apply negb_true_iff in Heph. apply Z.eqb_neq in Heph. exact Heph. }
-    destruct (process_msg Repaired (with_conn true s0) (w_mid m) sm (topic_of_wire (w_wtopic m)) (w_topics m)
+    destruct (process_msg Repaired (with_conn true s0) (w_mid m) sm tp (w_topics m)
                           (min_recv (with_conn true s0))) as [[nw s2]|] eqn:Ep.
     2:{ inversion E; subst; clear E. repeat split; try (apply FR; reflexivity); try lia. intros x []. }
     destruct (process_msg_frame _ _ _ _ _ _ _ _ _ (fun x => st_src x = i) Ep) as (Pc & PP).
@@ -215,7 +216,7 @@ Proof.
   - (* synchronized source *)
     assert (Hsync : sc_eph (cfg s0) = 0).
     { symmetry in Heph. apply negb_false_iff in Heph. apply Z.eqb_eq in Heph. exact Heph. }
-    destruct (process_msg Repaired (with_conn true s0) (w_mid m) sm (topic_of_wire (w_wtopic m)) (w_topics m)
+    destruct (process_msg Repaired (with_conn true s0) (w_mid m) sm tp (w_topics m)
                           (f_min f1)) as [[nw s2]|] eqn:Ep.
     2:{ inversion E; subst; clear E. repeat split; try (apply FR; reflexivity); try lia. intros x []. }
     rewrite Hf1 in Ep.
@@ -226,7 +227,7 @@ Proof.
                              then with_recvd (recvd_new (sc_mode (cfg s))) (if got_all s then with_reg true s else s)
                              else s) in *.
     set (l2 := if nw && negb (balance st) then upd_others l1 i G else l1) in *.
-    set (lock := balance st && match topic_of_wire (w_wtopic m) with [] => false | _ => true end) in *.
+    set (lock := balance st && match tp with [] => false | _ => true end) in *.
     set (l3 := if lock then upd_others l2 i (with_reg false) else l2) in *.
     assert (N1 : nth_error l1 i = Some s2) by (unfold l1; rewrite nth_error_set_src, Nat.eqb_refl, En; reflexivity).
     assert (N1' : forall j, j <> i -> nth_error l1 j = nth_error (srcs st) j).
